@@ -52,7 +52,7 @@ QUICK_JOBS = 12
 MIN_MONITORS = {"*": {"input_fingerprint": 200, "cache.hit_unchanged": 200, "order.matches_baseline": 200, "derived.consistent": 100, "derived.matches_rebuild": 100,
                       "defaults.unchanged": 3, "deterministic": 10, "deterministic.simulator_seed": 4, "sweep.apply_over_sampling_keeps_own_scheme": 2,
                       "param.order_independent": 200, "param.repeat_equal": 200, "param.grid_argument_untouched": 20, "param.arguments_untouched": 10,
-                      "param.earlier_results_keep_their_value": 10}}
+                      "param.earlier_results_keep_their_value": 10, "global_state.numpy_error_handling_unchanged": 10}}
 SKIP_NAMES = ("plot", "output", "fits", "hdu", "visual", "json", "pickle", "run_time", "profile", "logger", "instance_flatten", "instance_unflatten")
 SKIP_QUANT = {"reconstruction_noise_map_with_covariance", "reconstruction_noise_map", "reconstruction_noise_map_dict", "errors", "errors_with_covariance",
               "errors_dict", "T", "flat", "base", "ctypes", "data_ptr"}
@@ -105,6 +105,7 @@ def setup(ctx):
     ctx.reach["wrapped_entry_points"] = n
     # module-level default argument objects shared by every call that omits the argument
     ctx.defaults = []
+    ctx.numpy_error_state = dict(np.geterr())
     for label, fn, arg in (("factory.inversion_from.settings", fac.inversion_from, "settings"), ("factory.inversion_from.preloads", fac.inversion_from, "preloads"),
                            ("factory.inversion_imaging_from.settings", fac.inversion_imaging_from, "settings"),
                            ("factory.inversion_interferometer_from.settings", fac.inversion_interferometer_from, "settings"),
@@ -175,6 +176,13 @@ def teardown(ctx):
 
 
 def check_defaults(ctx, where):
+    # process-wide numeric state is shared state too: what the library reads or computes must leave NumPy's floating point error
+    # handling as the caller set it (a query that calls np.seterr changes how every later computation treats division by zero)
+    now = dict(np.geterr())
+    if getattr(ctx, "numpy_error_state", None) is None:
+        ctx.numpy_error_state = now
+    ctx.check(now == ctx.numpy_error_state, "global_state.numpy_error_handling_unchanged", where=where, before=ctx.numpy_error_state, now=now)
+    ctx.numpy_error_state = now
     for rec in ctx.defaults:
         h = state_fp(rec[1])
         ctx.check(h == rec[2], "defaults.unchanged", default=rec[0], where=where, state=lambda: ({k: repr(v)[:60] for k, v in vars(rec[1]).items()} if hasattr(rec[1], "__dict__") else repr(rec[1])[:200]))
